@@ -21,11 +21,17 @@ import (
 // ---------------------------------------------------------------- keys as the library wants them
 
 func sm2Priv(i int) *sm2.PrivateKey {
-	k, err := sm2.NewPrivateKey(b32(sm2D[i]))
-	if err != nil {
-		panic(fmt.Sprintf("c12: fixed SM2 key %d refused: %v", i, err))
-	}
-	return k
+	return scoped(fmt.Sprint("sm2priv/", i), func() *sm2.PrivateKey {
+		kb := b32(sm2D[i])
+		k, err := sm2.NewPrivateKey(kb)
+		if err != nil {
+			panic(fmt.Sprintf("c12: fixed SM2 key %d refused: %v", i, err))
+		}
+		for j := range kb { // the constructor must not have kept the slice
+			kb[j] = 0x5c
+		}
+		return k
+	})
 }
 
 // plainCurve is NIST P-256 seen as a user-defined curve: only the methods of
@@ -45,15 +51,17 @@ var wrappedP256 elliptic.Curve = plainCurve{elliptic.P256()}
 // nistPriv builds a key on NIST P-256; the public point comes from the Go
 // standard library, not from the code under test.
 func nistPriv(i int, wrapped bool) *sm2.PrivateKey {
-	d := nistD[i]
-	k := new(sm2.PrivateKey)
-	k.Curve = elliptic.P256()
-	if wrapped {
-		k.Curve = wrappedP256
-	}
-	k.X, k.Y = elliptic.P256().ScalarBaseMult(d.Bytes())
-	k.D = new(big.Int).Set(d)
-	return k
+	return scoped(fmt.Sprint("nistpriv/", i, wrapped), func() *sm2.PrivateKey {
+		d := nistD[i]
+		k := new(sm2.PrivateKey)
+		k.Curve = elliptic.P256()
+		if wrapped {
+			k.Curve = wrappedP256
+		}
+		k.X, k.Y = elliptic.P256().ScalarBaseMult(d.Bytes())
+		k.D = new(big.Int).Set(d)
+		return k
+	})
 }
 
 var customUID = []byte("c12-user-id")
@@ -157,7 +165,9 @@ func signOp(name string, curve *ref.Curve, ds []*big.Int, legacy bool) *opImpl {
 	}
 	o.run = func(c *opCase, rd io.Reader) (out outcome, err error) {
 		k := priv(c)
+		a := newArgs(c)
 		in, _ := input(c)
+		in = a.in(in)
 		var sig []byte
 		var r, s *big.Int
 		switch {
@@ -168,8 +178,9 @@ func signOp(name string, curve *ref.Curve, ds []*big.Int, legacy bool) *opImpl {
 		case c.Var == 1:
 			sig, err = k.Sign(rd, in, sm2.DefaultSM2SignerOpts)
 		default:
-			r, s, err = sm2.SignWithSM2(rd, &k.PrivateKey, customUID, in)
+			r, s, err = sm2.SignWithSM2(rd, &k.PrivateKey, a.in(customUID), in)
 		}
+		out.argErr = a.finish()
 		if sig != nil {
 			out.leak = "signature"
 		}
@@ -240,14 +251,17 @@ func encryptOp(name string, curve *ref.Curve, ds []*big.Int, legacy bool, zeroK 
 	}
 	o.run = func(c *opCase, rd io.Reader) (out outcome, err error) {
 		var ct []byte
+		a := newArgs(c)
+		msg := a.in(msgOf(c))
 		switch c.Var {
 		case 0:
-			ct, err = sm2.Encrypt(rd, pub(c), msgOf(c), nil)
+			ct, err = sm2.Encrypt(rd, pub(c), msg, nil)
 		case 1:
-			ct, err = sm2.EncryptASN1(rd, pub(c), msgOf(c))
+			ct, err = sm2.EncryptASN1(rd, pub(c), msg)
 		default:
-			ct, err = sm2.Encrypt(rd, pub(c), msgOf(c), sm2.NewPlainEncrypterOpts(sm2.MarshalCompressed, sm2.C1C2C3))
+			ct, err = sm2.Encrypt(rd, pub(c), msg, sm2.NewPlainEncrypterOpts(sm2.MarshalCompressed, sm2.C1C2C3))
 		}
+		out.argErr = a.finish()
 		if ct != nil {
 			out.leak = "ciphertext"
 		}
@@ -403,10 +417,16 @@ func sm2KexOp(name string, respond bool) *opImpl {
 	o := &opImpl{name: name, n: curve.N, hi: sub1(curve.N), vars: 2, keys: len(sm2D)}
 	o.run = func(c *opCase, rd io.Reader) (out outcome, err error) {
 		self, peer := sm2Priv(c.Key), sm2Priv((c.Key+1)%len(sm2D))
-		ke, err := sm2.NewKeyExchange(self, &peer.PublicKey, []byte("Alice"), []byte("Bob"), 16, c.Var == 1)
-		if err != nil {
-			return out, fmt.Errorf("c12: NewKeyExchange: %v", err)
-		}
+		ke := scoped(fmt.Sprint("sm2ke/", c.Key, c.Var, respond), func() *sm2.KeyExchange {
+			ua, ub := []byte("Alice"), []byte("Bob")
+			ke, err := sm2.NewKeyExchange(self, &peer.PublicKey, ua, ub, 16, c.Var == 1)
+			if err != nil {
+				panic(fmt.Sprintf("c12: NewKeyExchange: %v", err))
+			}
+			copy(ua, "xxxxx") // Z_A, Z_B are computed by the constructor
+			copy(ub, "yyy")
+			return ke
+		})
 		var R *ecdsa.PublicKey
 		var tag []byte
 		if respond {
@@ -453,9 +473,13 @@ var (
 	_ = sm2KexOp("sm2-kex-respond", true)
 )
 
-func TestC12_SM2Sign(t *testing.T)    { runFamily(t, "sm2sign", 1000, 15000, "sm2-sign") }
-func TestC12_SM2Encrypt(t *testing.T) { runFamily(t, "sm2encrypt", 700, 10000, "sm2-encrypt", "sm2-enveloped-key") }
-func TestC12_SM2KeyGen(t *testing.T)  { runFamily(t, "sm2keygen", 1200, 18000, "sm2-generatekey", "ecdh-generatekey") }
+func TestC12_SM2Sign(t *testing.T) { runFamily(t, "sm2sign", 1000, 15000, "sm2-sign") }
+func TestC12_SM2Encrypt(t *testing.T) {
+	runFamily(t, "sm2encrypt", 700, 10000, "sm2-encrypt", "sm2-enveloped-key")
+}
+func TestC12_SM2KeyGen(t *testing.T) {
+	runFamily(t, "sm2keygen", 1200, 18000, "sm2-generatekey", "ecdh-generatekey")
+}
 func TestC12_SM2KeyExchange(t *testing.T) {
 	runFamily(t, "sm2kex", 1000, 15000, "sm2-kex-init", "sm2-kex-respond")
 }
